@@ -104,13 +104,11 @@ add(Job('is_ipv4', 'harness/is_ipv4.c', enforce='is_ipv4', loops=True, timeout=1
         expect=['postcondition', 'loop_invariant_base', 'loop_invariant_step', 'loop_decreases', 'assigns'],
         functions=['is_ipv4'], files=['src/is_ipv4_ipv6.c'], assumptions=[A1, A5, A9],
         note='g_len <= 2^31-16; precondition from the call sites: the closing bracket follows the address'))
-add(Job('is_ipv6', 'harness/is_ipv6.c', enforce='is_ipv6', replace=['is_ipv4'], timeout=2400, reach=4, mem_est=22, solvers=('minisat2',),
+add(Job('is_ipv6', 'harness/is_ipv6.c', enforce='is_ipv6', replace=['is_ipv4'], timeout=2400, reach=4, mem_est=36, mem_gb=36, solvers=('minisat2',),
         unwindset=[('is_ipv6_wrapped_for_contract_checking.0', 18)],
         expect=['postcondition', 'assigns', 'unwind'], functions=['is_ipv6'], files=['src/is_ipv4_ipv6.c'], assumptions=[A1, A5, A9],
-        note='no loop invariant: the loop provably runs <= 17 times (unwinding assertion is an obligation); input length <= 45 bytes in this job, longer inputs: is_ipv6_len'))
-add(Job('is_ipv6_len', 'harness/is_ipv6_len.c', enforce='is_ipv6', replace=['is_ipv4'], loops=True, timeout=900, reach=2,
-        expect=['postcondition', 'loop_invariant_step', 'loop_decreases'], functions=['is_ipv6 (length lemma)'], files=['src/is_ipv4_ipv6.c'], assumptions=[A1, A5, A9],
-        note='every input length: accepted without a dotted quad => at most 39 bytes; a dotted quad is handed to is_ipv4 from offset <= 35'))
+        bounded='input length <= 45 bytes (fixed 46-byte object); within that bound the loop is fully unwound (18, unwinding assertion discharged), so the result is complete for all inputs up to 45 bytes and says nothing about longer ones',
+        note='no loop invariant: the loop runs <= 17 times (unwinding assertion is an obligation). A length lemma for longer inputs (design-probes/is_ipv6_len_attempt.c) ran out of memory and is not part of the claim'))
 add(Job('is_ipaddr', 'harness/is_ipaddr.c', enforce='is_ipaddr', replace=['is_ipv4', 'is_ipv6'], timeout=300, reach=2,
         expect=['postcondition', 'assigns'], functions=['is_ipaddr'], files=['src/is_ipv4_ipv6.c'], assumptions=[A3, A9]))
 
@@ -214,6 +212,20 @@ add(Job('lemma_rank_inst', 'harness/lemma_rank.c', no_dfcc=True, defines=['-DPAR
         note='loop-free; monotonicity instances are assumed here and proved in lemma_rank'))
 add(Job('lemma_local', 'harness/lemma_local.c', no_dfcc=True, timeout=300, reach=1, expect=['assertion'],
         functions=['spec automata (lemmas)'], files=[], note='loop-free over a symbolic (state, character) pair: complete'))
+
+# ---- EAV_EXTRA build of the e-mail functions and of the result-releasing API (C16 last sentence, C06)
+for mode in ('822', '5321', '5322'):
+    for path in ('HOST', 'LITERAL'):
+        n = 'email_%s_%s+extra' % (mode, path.lower())
+        add(Job(n, 'harness/email_ascii.c', enforce='is_%s_email' % mode, replace_candidates=EMAIL_CALLEES,
+                defines=['-DEMAIL_MODE=' + mode, '-DPATH_' + path, '-DHAVE_LIBIDN2', '-DEAV_EXTRA'], timeout=1200, reach=4,
+                expect=['postcondition', 'assigns'], functions=['is_%s_email (EAV_EXTRA build)' % mode],
+                files=['src/is_%s_email.c' % mode, 'include/eav/private_email.h'], assumptions=[A1, A2, A3, A6, A9]))
+for fn in ('eav_result_free', 'eav_free', 'eav_is_email'):
+    add(Job(fn + '+extra', 'harness/eav_is_email.c' if fn == 'eav_is_email' else 'harness/eav_api.c', enforce=fn,
+            replace=(CBS if fn == 'eav_is_email' else []), defines=['-DHAVE_LIBIDN2', '-DEAV_EXTRA'] + ([] if fn == 'eav_is_email' else ['-DJOB_' + fn]),
+            timeout=600, reach=(4 if fn == 'eav_is_email' else 1), expect=['postcondition'], functions=[fn + ' (EAV_EXTRA build)'],
+            files=['partial/idn2/eav.c', 'src/eav.c'], assumptions=[A2, A7]))
 
 PROPS = {}
 
